@@ -386,7 +386,7 @@ def strFormG (M : Nat) (l : Bits) : Str :=
   let e := length % 4
   pre0x ++ hexDigits (l.take (length - e)) ++ commaSp ++ pre0b ++ binDigits (l.drop (length - e))
 
-def strFormAlgG (M : Nat) (lsb0 : Bool) (l : Bits) : Str :=
+def strFormAlgG (M : Nat) (_lsb0 : Bool) (l : Bits) : Str :=
   let length := l.length
   if length = 0 then [] else
   if length > M * 4 then
